@@ -435,6 +435,79 @@ theorem newIfaces_get_idx (I : AMap IfaceE) (n s : Nat) (l : List Nat) (hl : l.N
       rw [ih _ _ hn.2 k hk]
       congr 2; omega
 
+theorem newIfaces_get_mem (I : AMap IfaceE) (n s : Nat) (l : List Nat) (hl : l.Nodup) (j : Nat) (hj : j ∈ l) :
+    ∃ k, l[k]? = some j ∧ (newIfaces I n s l).get j = some { node := n, number := ((s + k : Nat) : Int) } := by
+  obtain ⟨k, hk⟩ := List.getElem?_of_mem hj
+  exact ⟨k, hk, newIfaces_get_idx I n s l hl k j hk⟩
+
+section newIfacesViews
+variable (I : AMap IfaceE) (n s : Nat) (l : List Nat) (hl : l.Nodup) (j : Nat)
+
+theorem newIfaces_get_none (hl : l.Nodup) : (newIfaces I n s l).get j = none ↔ (j ∉ l ∧ I.get j = none) := by
+  by_cases hj : j ∈ l
+  · obtain ⟨k, _, hk⟩ := newIfaces_get_mem I n s l hl j hj
+    simp [hk, hj]
+  · rw [newIfaces_get_not_mem I n s l j hj]; simp [hj]
+
+theorem newIfaces_ifaceNode (hl : l.Nodup) :
+    ifaceNode (newIfaces I n s l) j = if j ∈ l then some n else ifaceNode I j := by
+  by_cases hj : j ∈ l
+  · obtain ⟨k, _, hk⟩ := newIfaces_get_mem I n s l hl j hj
+    simp [hj, ifaceNode_of_get hk]
+  · unfold ifaceNode; rw [newIfaces_get_not_mem I n s l j hj]; simp [hj]
+
+theorem newIfaces_ifaceBus (hl : l.Nodup) :
+    ifaceBus (newIfaces I n s l) j = if j ∈ l then none else ifaceBus I j := by
+  by_cases hj : j ∈ l
+  · obtain ⟨k, _, hk⟩ := newIfaces_get_mem I n s l hl j hj
+    simp [hj, ifaceBus_of_get hk]
+  · unfold ifaceBus; rw [newIfaces_get_not_mem I n s l j hj]; simp [hj]
+
+theorem newIfaces_ifaceSent (hl : l.Nodup) :
+    ifaceSent (newIfaces I n s l) j = if j ∈ l then [] else ifaceSent I j := by
+  by_cases hj : j ∈ l
+  · obtain ⟨k, _, hk⟩ := newIfaces_get_mem I n s l hl j hj
+    simp [hj, ifaceSent_of_get hk]
+  · unfold ifaceSent; rw [newIfaces_get_not_mem I n s l j hj]; simp [hj]
+
+theorem newIfaces_ifaceSentNames (hl : l.Nodup) :
+    ifaceSentNames (newIfaces I n s l) j = if j ∈ l then [] else ifaceSentNames I j := by
+  by_cases hj : j ∈ l
+  · obtain ⟨k, _, hk⟩ := newIfaces_get_mem I n s l hl j hj
+    simp [hj, ifaceSentNames_of_get hk]
+  · unfold ifaceSentNames; rw [newIfaces_get_not_mem I n s l j hj]; simp [hj]
+
+theorem newIfaces_ifaceSentIDs (hl : l.Nodup) :
+    ifaceSentIDs (newIfaces I n s l) j = if j ∈ l then [] else ifaceSentIDs I j := by
+  by_cases hj : j ∈ l
+  · obtain ⟨k, _, hk⟩ := newIfaces_get_mem I n s l hl j hj
+    simp [hj, ifaceSentIDs_of_get hk]
+  · unfold ifaceSentIDs; rw [newIfaces_get_not_mem I n s l j hj]; simp [hj]
+
+theorem newIfaces_ifaceSentStatic (hl : l.Nodup) :
+    ifaceSentStatic (newIfaces I n s l) j = if j ∈ l then [] else ifaceSentStatic I j := by
+  by_cases hj : j ∈ l
+  · obtain ⟨k, _, hk⟩ := newIfaces_get_mem I n s l hl j hj
+    simp [hj, ifaceSentStatic_of_get hk]
+  · unfold ifaceSentStatic; rw [newIfaces_get_not_mem I n s l j hj]; simp [hj]
+
+theorem newIfaces_ifaceRecv (hl : l.Nodup) :
+    ifaceRecv (newIfaces I n s l) j = if j ∈ l then [] else ifaceRecv I j := by
+  by_cases hj : j ∈ l
+  · obtain ⟨k, _, hk⟩ := newIfaces_get_mem I n s l hl j hj
+    simp [hj, ifaceRecv_of_get hk]
+  · unfold ifaceRecv; rw [newIfaces_get_not_mem I n s l j hj]; simp [hj]
+
+theorem newIfaces_ifaceNumber_idx (hl : l.Nodup) (k : Nat) (hk : l[k]? = some j) :
+    ifaceNumber (newIfaces I n s l) j = ((s + k : Nat) : Int) := by
+  rw [ifaceNumber_of_get (newIfaces_get_idx I n s l hl k j hk)]
+
+theorem newIfaces_ifaceNumber_not_mem (hj : j ∉ l) :
+    ifaceNumber (newIfaces I n s l) j = ifaceNumber I j := by
+  unfold ifaceNumber; rw [newIfaces_get_not_mem I n s l j hj]
+
+end newIfacesViews
+
 /-! ### `updStatic`, `dropBuilderRef`, `dropDefRef` -/
 
 theorem updStatic_get (B : AMap BusE) (pb : Option Nat) (f : Reg Nat → Reg Nat) (k : Nat) :
